@@ -577,8 +577,8 @@ fn call_powf<R: ModeTag, const B: Word>(rec: &mut Rec, real: Option<&Real>, x: &
     }
 }
 
-fn powf<const B: Word>(ctx: &mut Ctx, vx: &[Val<B>], vy: &[Val<B>], precs: &[usize]) {
-    let name = format!("powf.B{}", B);
+fn powf<const B: Word>(ctx: &mut Ctx, tag: &str, vx: &[Val<B>], vy: &[Val<B>], precs: &[usize]) {
+    let name = format!("powf.B{}{}", B, tag);
     let n = vx.len() as u64 * vy.len() as u64;
     let w0 = w0_for(B as u32, precs);
     ctx.sweep(&name, n, |i, rec| {
@@ -790,6 +790,8 @@ struct Plan {
     ye: i64,
     /// add a few two-digit exponents (1.1, 1.5, 2.5, B^2-1 at three scales, ...) to a one-digit y universe
     y_extra: bool,
+    /// two sweeps (all x) × (small y) and (small x) × (all y) instead of the full product
+    powf_cross: bool,
     powf_precs: Vec<usize>,
 }
 
@@ -828,23 +830,35 @@ fn base_run<const B: Word>(ctx: &mut Ctx, pl: &Plan) {
     ctx.bound(&format!("B{}.powi.bases", B), vi.len() as u64);
     powi::<B>(ctx, &vi, &exps, &ipr);
     // powf
-    let vx: Vec<Val<B>> = vals::<B>(&f_universe(base, pl.xp, pl.xe), "").into_iter().filter(|v| !v.rat.is_neg()).collect();
-    let mut uy = f_universe(base, pl.yp, pl.ye);
-    if pl.y_extra {
-        let b = base as i64;
-        for (sg, e) in [(b + 1, -1i64), (b + b / 2, -1), (2 * b + b / 2, -1), (b * b - 1, -1), (b + 2, 0), (b * b - 1, 0), (b * b - 1, 1)] {
-            uy.push((BigInt::from(sg), e));
-            uy.push((BigInt::from(-sg), e));
+    let xs = |p: u32, e: i64| -> Vec<Val<B>> { vals::<B>(&f_universe(base, p, e), "").into_iter().filter(|v| !v.rat.is_neg()).collect() };
+    let ys = |p: u32, e: i64, extra: bool| -> Vec<Val<B>> {
+        let mut uy = f_universe(base, p, e);
+        if extra {
+            let b = base as i64;
+            for (sg, e) in [(b + 1, -1i64), (b + b / 2, -1), (2 * b + b / 2, -1), (b * b - 1, -1), (b + 2, 0), (b * b - 1, 0), (b * b - 1, 1)] {
+                uy.push((BigInt::from(sg), e));
+                uy.push((BigInt::from(-sg), e));
+            }
         }
+        vals::<B>(&uy, "")
+    };
+    if pl.powf_cross {
+        // (all x) × (one-digit y + extras)  ∪  (one-digit x) × (all y) instead of the full product
+        let (vx, vy) = (xs(pl.xp, pl.xe), ys(1, 1, true));
+        ctx.bound(&format!("B{}.powf.XxS", B), serde_json::json!([vx.len(), vy.len()]));
+        powf::<B>(ctx, ".XxS", &vx, &vy, &pl.powf_precs);
+        let (vx, vy) = (xs(1, 1), ys(pl.yp, pl.ye, false));
+        ctx.bound(&format!("B{}.powf.SxY", B), serde_json::json!([vx.len(), vy.len()]));
+        powf::<B>(ctx, ".SxY", &vx, &vy, &pl.powf_precs);
+    } else {
+        let (vx, vy) = (xs(pl.xp, pl.xe), ys(pl.yp, pl.ye, pl.y_extra));
+        ctx.bound(&format!("B{}.powf", B), serde_json::json!([vx.len(), vy.len()]));
+        powf::<B>(ctx, "", &vx, &vy, &pl.powf_precs);
     }
-    let vy = vals::<B>(&uy, "");
-    ctx.bound(&format!("B{}.powf.x", B), vx.len() as u64);
-    ctx.bound(&format!("B{}.powf.y", B), vy.len() as u64);
-    powf::<B>(ctx, &vx, &vy, &pl.powf_precs);
 }
 
 pub fn run(ctx: &mut Ctx) {
-    ctx.rule = "per base B: (1) every x of X(B) = F(B,P,E) ∪ {±B^-k, 1±B^-k, -1+B^-k : k<=6 (12 for base 2, thorough)} ∪ {±d·B^j : d=1..9, j=1,2} (F(B,P,E) = all s·B^e, |s|<B^P, |e|<=E) in the domain of the function × {exp, exp_m1, ln, ln_1p} × every precision of the list (0 = unlimited included) × six rounding modes, through Context::f and (when x fits p) FBig::f; (2) the same for a list of tiny (down to B^-1000) and huge (up to 10^6; B^1000 for ln) arguments; (3) powi: every base of F(B,2,2) × exponents -12..12, ±63, ±64, ±1000 × precisions × modes; (4) powf: every (x >= 0, y) of F × F × precisions × modes. Each (value, flag) is judged by: |r - true| < ulp_p(true) with ulp_p(t) = B^(floor(log_B|t|) - p + 1); flag Exact only if r = true; at most p+1 digits; precision 0 must panic (or be exact). The true value is a rational (powi, rational powers, f(0), ln 1) or is enclosed by exact fractions refined until every comparison is decided. non-trivial = true value irrational (powi: base not 0/±1, exponent not 0/1)".into();
+    ctx.rule = "per base B: (1) every x of X(B) = F(B,P,E) ∪ {±B^-k, 1±B^-k, -1+B^-k : k<=6 (12 for base 2, thorough)} ∪ {±d·B^j : d=1..9, j=1,2} (F(B,P,E) = all s·B^e, |s|<B^P, |e|<=E) in the domain of the function × {exp, exp_m1, ln, ln_1p} × every precision of the list (0 = unlimited included) × six rounding modes, through Context::f and (when x fits p) FBig::f; (2) the same for a list of tiny (down to B^-1000) and huge (up to 10^6; B^1000 for ln) arguments; (3) powi: every base of F(B,2,2) × exponents -12..12, ±63, ±64, ±1000 × precisions × modes; (4) powf: every (x >= 0, y) of F × F (base 10 thorough: (all x)×(one-digit y) ∪ (one-digit x)×(all y)) × precisions × modes. Each (value, flag) is judged by: |r - true| < ulp_p(true) with ulp_p(t) = B^(floor(log_B|t|) - p + 1); flag Exact only if r = true; at most p+1 digits; precision 0 must panic (or be exact). The true value is a rational (powi, rational powers, f(0), ln 1) or is enclosed by exact fractions refined until every comparison is decided. non-trivial = true value irrational (powi: base not 0/±1, exponent not 0/1)".into();
     ctx.assume("exp(x), exp_m1(x) for rational x != 0 and ln(x), ln_1p(x-1) for positive rational x != 1 are transcendental (Lindemann–Weierstrass), x^(a/b) is irrational unless x is a perfect b-th power: such values never equal a float, so refinement of the enclosures always decides the comparisons");
     ctx.assume("enclosures: fixed-point interval arithmetic on num_bigint::BigInt with outward rounding, Maclaurin series of (e^t-1)/t for |t|<=1/2 and of atanh(z)/z for |z|<=1/3 with explicit remainder bounds, ln 2 = 2 atanh(1/3); checked at start against 70 known digits of e, 1/e, ln 2, ln 10 and against libm on a grid");
     ctx.assume("the direction of AddOne/SubOne and correct rounding are not demanded by the property: they are only counted (classes unspecified:* and info:*); operands with more digits than the precision are judged too (class x-long in the signature) because the statement quantifies over every finite argument; domain errors (ln x<=0, ln_1p x<=-1) belong to C16 and are skipped");
@@ -862,24 +876,25 @@ pub fn run(ctx: &mut Ctx) {
     ctx.bound("enclosure.refinement-levels", h11::MAX_LEVEL as u64);
     // base 2: two binary digits are too few to be interesting, use 5 (quick) / 6 digits
     let p2 = if quick {
-        Plan { fp: 5, fe: 4, near: 6, precs: precs.clone(), ip: 4, ie: 2, xp: 4, xe: 2, yp: 4, ye: 2, y_extra: false, powf_precs: pf.clone() }
+        Plan { fp: 5, fe: 4, near: 6, precs: precs.clone(), ip: 4, ie: 2, xp: 4, xe: 2, yp: 4, ye: 2, y_extra: false, powf_cross: false, powf_precs: pf.clone() }
     } else {
-        Plan { fp: 6, fe: 6, near: 12, precs: precs.clone(), ip: 5, ie: 3, xp: 5, xe: 3, yp: 5, ye: 3, y_extra: false, powf_precs: pf.clone() }
+        Plan { fp: 6, fe: 6, near: 12, precs: precs.clone(), ip: 5, ie: 3, xp: 5, xe: 3, yp: 5, ye: 3, y_extra: false, powf_cross: false, powf_precs: pf.clone() }
     };
     base_run::<2>(ctx, &p2);
     let p10 = if quick {
-        Plan { fp: 2, fe: 3, near: 6, precs: precs.clone(), ip: 2, ie: 2, xp: 1, xe: 1, yp: 1, ye: 1, y_extra: true, powf_precs: pf.clone() }
+        Plan { fp: 2, fe: 3, near: 6, precs: precs.clone(), ip: 2, ie: 2, xp: 1, xe: 1, yp: 1, ye: 1, y_extra: true, powf_cross: false, powf_precs: pf.clone() }
     } else {
-        Plan { fp: 2, fe: 3, near: 6, precs: precs.clone(), ip: 2, ie: 2, xp: 2, xe: 1, yp: 2, ye: 1, y_extra: false, powf_precs: pf.clone() }
+        // the full product F(10,2,1) x F(10,2,1) (146 611 pairs) costs ~2.5 CPU-hours in the mon build
+        Plan { fp: 2, fe: 3, near: 6, precs: precs.clone(), ip: 2, ie: 2, xp: 2, xe: 1, yp: 2, ye: 1, y_extra: false, powf_cross: true, powf_precs: pf.clone() }
     };
     base_run::<10>(ctx, &p10);
     if !quick {
-        let p3 = Plan { fp: 3, fe: 3, near: 6, precs: precs.clone(), ip: 2, ie: 2, xp: 2, xe: 1, yp: 2, ye: 1, y_extra: false, powf_precs: pf.clone() };
+        let p3 = Plan { fp: 3, fe: 3, near: 6, precs: precs.clone(), ip: 2, ie: 2, xp: 2, xe: 1, yp: 2, ye: 1, y_extra: false, powf_cross: false, powf_precs: pf.clone() };
         base_run::<3>(ctx, &p3);
         // exponent range 2 instead of 3 for the large bases: 255*16^3 ~ 10^6 makes every exp enclosure a 1.5 Mbit number
-        let p16 = Plan { fp: 2, fe: 2, near: 6, precs: precs.clone(), ip: 2, ie: 2, xp: 1, xe: 1, yp: 1, ye: 1, y_extra: true, powf_precs: pf.clone() };
+        let p16 = Plan { fp: 2, fe: 2, near: 6, precs: precs.clone(), ip: 2, ie: 2, xp: 1, xe: 1, yp: 1, ye: 1, y_extra: true, powf_cross: false, powf_precs: pf.clone() };
         base_run::<16>(ctx, &p16);
-        let p36 = Plan { fp: 1, fe: 2, near: 6, precs: precs.clone(), ip: 1, ie: 2, xp: 1, xe: 1, yp: 1, ye: 1, y_extra: true, powf_precs: pf.clone() };
+        let p36 = Plan { fp: 1, fe: 2, near: 6, precs: precs.clone(), ip: 1, ie: 2, xp: 1, xe: 1, yp: 1, ye: 1, y_extra: true, powf_cross: false, powf_precs: pf.clone() };
         base_run::<36>(ctx, &p36);
     }
 }
